@@ -918,8 +918,11 @@ class Interp(Wrapper):
                 vbits = max(vbits, x.denominator.bit_length() - 1)
                 acc[q] += w * x
         # every intermediate product / partial sum is a multiple of 2^-(fbits+vbits) bounded by max|v|
-        if fbits + vbits + int(vmax).bit_length() + 1 > MANT[isk]:
-            raise Inexact("interpolation sum not exact in the coordinate precision")
+        # (the generic branch, N >= 4, accumulates `rv[q] += f * v` in the *value* scalar type; N <= 3 evaluate the whole sum in the
+        #  coordinate scalar type and convert once)
+        mant = MANT[isk] if N <= 3 else min(MANT[isk], MANT[osk])
+        if fbits + vbits + int(vmax).bit_length() + 1 > mant:
+            raise Inexact("interpolation sum not exact in the working precision")
         if any(a != 0 for a in fr):
             tr.add("linear")
         return [need(osk, a) for a in acc]
